@@ -237,6 +237,16 @@ def math_ops(rng, tier, w):
         ops.append("run ecpBign gfpCreate_deep 1 %d %d %d %d" % (no, no, 1 if no == 32 else 0, sd()))
     for (m, k, l, l1) in ((163, 7, 6, 3), (233, 74, 0, 0), (283, 12, 7, 5), (409, 87, 0, 0), (571, 10, 5, 2), (131, 8, 3, 2), (193, 15, 0, 0)):
         ops.append("run gf2Ring gf2Create_deep 1 %d %d %d %d %d %d" % (m, m, k, l, l1, sd()))
+    # GF(2^m) with m at every multiple of the word length (64..512) and +-1: the modulus needs an extra word exactly
+    # when m % B_PER_W == 0 (state of exactly gf2Create_keep(m) octets; objKeep(f) == gf2Create_keep(m) for pentanomials)
+    wbits = 64 if w == "W64" else 32
+    for mm in range(64, 513, wbits):
+        for d in (-1, 0, 1):
+            m_ = mm + d
+            ops.append("run gf2Ring gf2Create_deep 1 %d %d 7 2 1 %d" % (m_, m_, sd()))        # pentanomial x^m + x^7 + x^2 + x + 1
+            ops.append("run gf2Ring gf2Create_deep 1 %d %d 11 6 4 %d" % (m_, m_, sd()))
+            if m_ % 8:
+                ops.append("run gf2Ring gf2Create_deep 1 %d %d 5 0 0 %d" % (m_, m_, sd()))    # trinomial x^m + x^5 + 1
     # DSTU fields 163/173/233/431 (a base point is generated with dstuPointGen where dstuParamsStd ships none)
     for (m_, cv) in ((163, 0), (173, 1), (233, 2), (431, 3)):
         ops.append("run ec2Dstu gf2Create_deep 1 %d %d %d %d" % (m_, m_, cv, sd()))
